@@ -42,7 +42,6 @@ Variable arrange : St -> St.
 Variable fixsigns : St -> St.
 
 Local Notation run := (cpals_run sweep fit_mttkrp fit_innerprod fchange_lt fit0 arrange fixsigns).
-Local Notation runspec := (cpals_run_spec sweep fit_mttkrp fit_innerprod fchange_lt fit0 arrange fixsigns).
 Local Notation loop := (cpals_loop sweep fit_mttkrp fchange_lt).
 Local Notation finish := (cpals_finish arrange fixsigns).
 Local Notation isw := (iter_sweep sweep).
@@ -172,6 +171,8 @@ Theorem cpals_run_closed : forall tol p s0 m dofix, 0 < m ->
 Proof.
   intros tol p s0 m dofix Hm. cbv zeta.
   unfold cpals_run.
+  assert (En : cpals_entry fit_innerprod fit0 s0 m = (fit0, None)) by (destruct m; [lia|reflexivity]).
+  rewrite En. cbn [fst snd].
   pose proof (c09l_loop_closed s0 tol p m 0) as H. cbv zeta in H.
   change (isw 0 s0) with s0 in H. change (fitbefore s0 0) with fit0 in H.
   change (c09l_last_of s0 0) with (@None (nat * F)) in H.
@@ -188,43 +189,36 @@ Qed.
 
 (* ---------- the requested theorems ---------- *)
 
-Theorem cpals_crash_iff : forall tol p s0 m dofix,
-  run tol p s0 m dofix = None <-> m = 0.
+(* maxiters = 0 (repaired code): closed form — no sweep, the start is arranged / sign-fixed; silent runs report the innerprod
+   formula evaluated on the start itself, printing runs re-evaluate it on the arranged model *)
+Theorem cpals_run_zero : forall tol p s0 dofix,
+  run tol p s0 0 dofix
+  = let fin := finish dofix s0 in
+    Some (if 0 <? p
+          then mkResult fin 0 (fst (fit_innerprod fin)) (snd (fit_innerprod fin))
+                        [EvHeader; EvFinal (snd (fit_innerprod fin))] []
+          else mkResult fin 0 (fst (fit_innerprod s0)) (snd (fit_innerprod s0)) [] []).
 Proof.
-  intros tol p s0 m dofix. split.
-  - intros H. destruct m as [|m]; [reflexivity|].
-    rewrite cpals_run_closed in H by lia. discriminate H.
-  - intros ->. reflexivity.
+  intros tol p s0 dofix. unfold cpals_run. cbn [cpals_entry cpals_loop fst snd lo_state lo_iter lo_nr lo_fit lo_log lo_trace].
+  destruct p as [|p]; reflexivity.
 Qed.
 
-Theorem cpals_run_spec_eq : forall tol p s0 m dofix, m > 0 ->
-  runspec tol p s0 m dofix = run tol p s0 m dofix.
-Proof. intros tol p s0 m dofix H. destruct m; [lia|reflexivity]. Qed.
-
-Theorem cpals_run_spec_total : forall tol p s0 m dofix,
-  exists r, runspec tol p s0 m dofix = Some r.
+(* every admissible iteration limit (0 included) yields a result *)
+Theorem cpals_run_total : forall tol p s0 m dofix, exists r, run tol p s0 m dofix = Some r.
 Proof.
   intros tol p s0 m dofix. destruct m as [|m].
-  - eexists; reflexivity.
-  - rewrite cpals_run_spec_eq by lia. rewrite cpals_run_closed by lia. eexists; reflexivity.
+  - rewrite cpals_run_zero. eexists; reflexivity.
+  - rewrite cpals_run_closed by lia. eexists; reflexivity.
 Qed.
 
-(* projections of a successful run *)
-Lemma c09l_run_proj : forall tol p s0 m dofix r,
-  run tol p s0 m dofix = Some r ->
-  0 < m /\
-  r_iters r = stopidx s0 tol m /\
-  r_trace r = map (fitat s0) (seq 0 (S (r_iters r))) /\
-  r_state r = finish dofix (isw (S (r_iters r)) s0) /\
-  (p = 0 -> (r_normres r, r_fit r) = fit_mttkrp (isw (S (r_iters r)) s0) /\ r_log r = []) /\
-  (p > 0 -> (r_normres r, r_fit r) = fit_innerprod (r_state r)
-            /\ r_log r = EvHeader :: iterlog s0 tol p (r_iters r) ++ [EvFinal (r_fit r)]).
+(* projections of a run with maxiters = 0 *)
+Lemma c09l_run_zero_proj : forall tol p s0 dofix r,
+  run tol p s0 0 dofix = Some r ->
+  r_iters r = 0 /\ r_trace r = [] /\ r_state r = finish dofix s0 /\
+  (p = 0 -> (r_normres r, r_fit r) = fit_innerprod s0 /\ r_log r = []) /\
+  (p > 0 -> (r_normres r, r_fit r) = fit_innerprod (r_state r) /\ r_log r = [EvHeader; EvFinal (r_fit r)]).
 Proof.
-  intros tol p s0 m dofix r H.
-  assert (Hm : 0 < m).
-  { destruct m; [|lia]. assert (E : run tol p s0 0 dofix = None) by reflexivity. congruence. }
-  rewrite cpals_run_closed in H by exact Hm. cbv zeta in H.
-  injection H as H. split; [exact Hm|].
+  intros tol p s0 dofix r H. rewrite cpals_run_zero in H. cbv zeta in H. injection H as H.
   destruct p as [|p];
     [change (0 <? 0) with false in H | change (0 <? S p) with true in H];
     cbv iota in H; subst r; cbn [r_iters r_trace r_state r_normres r_fit r_log];
@@ -232,43 +226,90 @@ Proof.
     try lia; (split; [symmetry; apply surjective_pairing | reflexivity]).
 Qed.
 
-Theorem cpals_iters_bound : forall tol p s0 m dofix r,
+(* projections of a successful run *)
+Lemma c09l_run_proj : forall tol p s0 m dofix r, 0 < m ->
+  run tol p s0 m dofix = Some r ->
+  r_iters r = stopidx s0 tol m /\
+  r_trace r = map (fitat s0) (seq 0 (S (r_iters r))) /\
+  r_state r = finish dofix (isw (S (r_iters r)) s0) /\
+  (p = 0 -> (r_normres r, r_fit r) = fit_mttkrp (isw (S (r_iters r)) s0) /\ r_log r = []) /\
+  (p > 0 -> (r_normres r, r_fit r) = fit_innerprod (r_state r)
+            /\ r_log r = EvHeader :: iterlog s0 tol p (r_iters r) ++ [EvFinal (r_fit r)]).
+Proof.
+  intros tol p s0 m dofix r Hm H.
+  rewrite cpals_run_closed in H by exact Hm. cbv zeta in H.
+  injection H as H.
+  destruct p as [|p];
+    [change (0 <? 0) with false in H | change (0 <? S p) with true in H];
+    cbv iota in H; subst r; cbn [r_iters r_trace r_state r_normres r_fit r_log];
+    (split; [reflexivity|]); (split; [reflexivity|]); (split; [reflexivity|]); split; intros Hp;
+    try lia; (split; [symmetry; apply surjective_pairing | reflexivity]).
+Qed.
+
+Theorem cpals_iters_bound : forall tol p s0 m dofix r, 0 < m ->
   run tol p s0 m dofix = Some r ->
   r_iters r < m /\ length (r_trace r) = S (r_iters r).
 Proof.
-  intros tol p s0 m dofix r H.
-  destruct (c09l_run_proj _ _ _ _ _ _ H) as (Hm & Hi & Ht & _).
+  intros tol p s0 m dofix r Hm H.
+  destruct (c09l_run_proj _ _ _ _ _ _ Hm H) as (Hi & Ht & _).
   split.
   - rewrite Hi. pose proof (c09l_stop_range s0 tol m 0 Hm). unfold stopidx, cpals_stop_index. fold stopfrom. lia.
   - rewrite Ht, map_length, seq_length. reflexivity.
 Qed.
 
-Theorem cpals_trace_eq : forall tol p s0 m dofix r,
+(* ... for every admissible limit, 0 included: the reported index of the last iteration is at most maxiters - 1 (0 when
+   nothing ran) and exactly min(maxiters, iters + 1) fits were computed *)
+Theorem cpals_iters_bound_all : forall tol p s0 m dofix r,
+  run tol p s0 m dofix = Some r ->
+  r_iters r <= m - 1 /\ length (r_trace r) = Nat.min m (S (r_iters r)).
+Proof.
+  intros tol p s0 m dofix r H. destruct m as [|m].
+  - destruct (c09l_run_zero_proj _ _ _ _ _ H) as (Hi & Ht & _). rewrite Hi, Ht. split; reflexivity.
+  - assert (Hm : 0 < S m) by lia. destruct (cpals_iters_bound _ _ _ _ _ _ Hm H) as (Hlt & Hlen). rewrite Hlen. lia.
+Qed.
+
+Theorem cpals_trace_eq : forall tol p s0 m dofix r, 0 < m ->
   run tol p s0 m dofix = Some r ->
   r_trace r = map (fun k => snd (fit_mttkrp (isw (S k) s0))) (seq 0 (S (r_iters r))).
 Proof.
-  intros tol p s0 m dofix r H.
-  destruct (c09l_run_proj _ _ _ _ _ _ H) as (_ & _ & Ht & _). exact Ht.
+  intros tol p s0 m dofix r Hm H.
+  destruct (c09l_run_proj _ _ _ _ _ _ Hm H) as (_ & Ht & _). exact Ht.
 Qed.
 
-Theorem cpals_trace_sweeps : forall tol p s0 m dofix r,
+Theorem cpals_trace_sweeps : forall tol p s0 m dofix r, 0 < m ->
   run tol p s0 m dofix = Some r ->
   (forall k, k <= r_iters r ->
      nth_error (r_trace r) k = Some (snd (fit_mttkrp (isw (S k) s0)))) /\
   r_state r = finish dofix (isw (S (r_iters r)) s0).
 Proof.
-  intros tol p s0 m dofix r H.
-  destruct (c09l_run_proj _ _ _ _ _ _ H) as (_ & _ & Ht & Hs & _).
+  intros tol p s0 m dofix r Hm H.
+  destruct (c09l_run_proj _ _ _ _ _ _ Hm H) as (_ & Ht & Hs & _).
   split; [|exact Hs].
   intros k Hk. rewrite Ht. rewrite c09l_nth_error_map_seq by lia. reflexivity.
 Qed.
 
-Lemma c09l_trace_nth : forall tol p s0 m dofix r k,
+(* for every limit (0 included): the returned model is arrange / fixsigns of the state after exactly as many sweeps FROM THE
+   GIVEN START as fits were computed, and the k-th fit is the one of the k-th sweep *)
+Theorem cpals_state_all : forall tol p s0 m dofix r,
+  run tol p s0 m dofix = Some r ->
+  r_state r = finish dofix (isw (length (r_trace r)) s0) /\
+  (forall k, k < length (r_trace r) -> nth_error (r_trace r) k = Some (fitat s0 k)).
+Proof.
+  intros tol p s0 m dofix r H. destruct m as [|m].
+  - destruct (c09l_run_zero_proj _ _ _ _ _ H) as (_ & Ht & Hs & _). rewrite Ht, Hs. split; [reflexivity|].
+    intros k Hk. cbn in Hk. lia.
+  - assert (Hm : 0 < S m) by lia.
+    destruct (cpals_iters_bound _ _ _ _ _ _ Hm H) as (_ & Hlen).
+    destruct (cpals_trace_sweeps _ _ _ _ _ _ Hm H) as (Hk & Hs).
+    rewrite Hlen. split; [exact Hs|]. intros k Hlt. apply Hk. lia.
+Qed.
+
+Lemma c09l_trace_nth : forall tol p s0 m dofix r k, 0 < m ->
   run tol p s0 m dofix = Some r -> k <= r_iters r ->
   nth k (r_trace r) fit0 = fitat s0 k.
 Proof.
-  intros tol p s0 m dofix r k H Hk.
-  destruct (c09l_run_proj _ _ _ _ _ _ H) as (_ & _ & Ht & _).
+  intros tol p s0 m dofix r k Hm H Hk.
+  destruct (c09l_run_proj _ _ _ _ _ _ Hm H) as (_ & Ht & _).
   rewrite Ht. apply c09l_nth_map_seq. lia.
 Qed.
 
@@ -293,7 +334,10 @@ Theorem cpals_stop_rule : forall tol p s0 m dofix r,
      fchange_lt (nth (k - 1) t fit0) (nth k t fit0) tol = false).
 Proof.
   intros tol p s0 m dofix r H t. subst t.
-  destruct (c09l_run_proj _ _ _ _ _ _ H) as (Hm & Hi & _).
+  destruct m as [|m'].
+  { destruct (c09l_run_zero_proj _ _ _ _ _ H) as (Hi & _). rewrite Hi. split; [intros Hlt|intros k Hk]; lia. }
+  set (m := S m') in *. assert (Hm : 0 < m) by (unfold m; lia).
+  destruct (c09l_run_proj _ _ _ _ _ _ Hm H) as (Hi & _).
   unfold stopidx, cpals_stop_index in Hi. fold stopfrom in Hi.
   split.
   - intros Hlt.
@@ -302,12 +346,12 @@ Proof.
     assert (Hpos : r_iters r > 0).
     { destruct (r_iters r); [rewrite c09l_trig_zero in Ht; discriminate Ht | lia]. }
     split; [exact Hpos|].
-    rewrite (c09l_trace_nth _ _ _ _ _ _ _ H) by lia.
-    rewrite (c09l_trace_nth _ _ _ _ _ _ _ H) by lia.
+    rewrite (c09l_trace_nth _ _ _ _ _ _ _ Hm H) by lia.
+    rewrite (c09l_trace_nth _ _ _ _ _ _ _ Hm H) by lia.
     rewrite <- c09l_trig_pos by lia. exact Ht.
   - intros k Hk.
-    rewrite (c09l_trace_nth _ _ _ _ _ _ _ H) by lia.
-    rewrite (c09l_trace_nth _ _ _ _ _ _ _ H) by lia.
+    rewrite (c09l_trace_nth _ _ _ _ _ _ _ Hm H) by lia.
+    rewrite (c09l_trace_nth _ _ _ _ _ _ _ Hm H) by lia.
     rewrite <- c09l_trig_pos by lia.
     apply (c09l_stop_first s0 tol m 0). rewrite <- Hi. lia.
 Qed.
@@ -320,14 +364,17 @@ Theorem cpals_stop_least : forall tol p s0 m dofix r,
   (forall k, 0 < k < r_iters r -> fchange_lt (fitat s0 (k - 1)) (fitat s0 k) tol = false).
 Proof.
   intros tol p s0 m dofix r H.
+  destruct m as [|m'].
+  { destruct (c09l_run_zero_proj _ _ _ _ _ H) as (Hi & _). rewrite Hi. split; [left; reflexivity|intros k Hk; lia]. }
+  set (m := S m') in *. assert (Hm : 0 < m) by (unfold m; lia).
   pose proof (cpals_stop_rule _ _ _ _ _ _ H) as (Ha & Hb).
-  pose proof (cpals_iters_bound _ _ _ _ _ _ H) as (Hlt & _).
+  pose proof (cpals_iters_bound _ _ _ _ _ _ Hm H) as (Hlt & _).
   split.
   - destruct (Nat.eq_dec (r_iters r) (m - 1)) as [E|E]; [left; exact E|right].
     destruct Ha as (Hp & Hc); [lia|]. split; [lia|].
-    rewrite !(c09l_trace_nth _ _ _ _ _ _ _ H) in Hc by lia. exact Hc.
+    rewrite !(c09l_trace_nth _ _ _ _ _ _ _ Hm H) in Hc by lia. exact Hc.
   - intros k Hk. specialize (Hb k Hk).
-    rewrite !(c09l_trace_nth _ _ _ _ _ _ _ H) in Hb by lia. exact Hb.
+    rewrite !(c09l_trace_nth _ _ _ _ _ _ _ Hm H) in Hb by lia. exact Hb.
 Qed.
 
 Theorem cpals_truncation : forall tol p1 p2 d1 d2 s0 m1 m2 r1 r2,
@@ -338,8 +385,11 @@ Theorem cpals_truncation : forall tol p1 p2 d1 d2 s0 m1 m2 r1 r2,
   r_iters r1 = Nat.min (r_iters r2) (m1 - 1).
 Proof.
   intros tol p1 p2 d1 d2 s0 m1 m2 r1 r2 Hle H1 H2.
-  destruct (c09l_run_proj _ _ _ _ _ _ H1) as (Hm1 & Hi1 & Ht1 & _).
-  destruct (c09l_run_proj _ _ _ _ _ _ H2) as (Hm2 & Hi2 & Ht2 & _).
+  destruct m1 as [|m1'].
+  { destruct (c09l_run_zero_proj _ _ _ _ _ H1) as (Hi & Ht & _). rewrite Hi, Ht. split; [reflexivity|lia]. }
+  set (m1 := S m1') in *. assert (Hm1 : 0 < m1) by (unfold m1; lia). assert (Hm2 : 0 < m2) by lia.
+  destruct (c09l_run_proj _ _ _ _ _ _ Hm1 H1) as (Hi1 & Ht1 & _).
+  destruct (c09l_run_proj _ _ _ _ _ _ Hm2 H2) as (Hi2 & Ht2 & _).
   assert (Hmin : r_iters r1 = Nat.min (r_iters r2) (m1 - 1)).
   { rewrite Hi1, Hi2. unfold stopidx, cpals_stop_index. fold stopfrom.
     rewrite (c09l_stop_trunc s0 tol m1 m2 0) by lia. f_equal. }
@@ -347,33 +397,48 @@ Proof.
   rewrite Ht1, Ht2, firstn_map, c09l_firstn_seq. f_equal. f_equal. lia.
 Qed.
 
-(* printing never touches the model state, the iteration count or the fit trace (no hypothesis) *)
+(* printing never touches the model state, the iteration count or the fit trace (no hypothesis; every limit, 0 included) *)
 Theorem cpals_print_indep_state : forall tol p1 p2 s0 m dofix r1 r2,
   run tol p1 s0 m dofix = Some r1 ->
   run tol p2 s0 m dofix = Some r2 ->
   r_state r1 = r_state r2 /\ r_iters r1 = r_iters r2 /\ r_trace r1 = r_trace r2.
 Proof.
   intros tol p1 p2 s0 m dofix r1 r2 H1 H2.
-  destruct (c09l_run_proj _ _ _ _ _ _ H1) as (_ & Hi1 & Ht1 & Hs1 & _).
-  destruct (c09l_run_proj _ _ _ _ _ _ H2) as (_ & Hi2 & Ht2 & Hs2 & _).
+  destruct m as [|m'].
+  { destruct (c09l_run_zero_proj _ _ _ _ _ H1) as (Hi1 & Ht1 & Hs1 & _).
+    destruct (c09l_run_zero_proj _ _ _ _ _ H2) as (Hi2 & Ht2 & Hs2 & _).
+    rewrite Hi1, Hi2, Ht1, Ht2, Hs1, Hs2. repeat split. }
+  assert (Hm : 0 < S m') by lia.
+  destruct (c09l_run_proj _ _ _ _ _ _ Hm H1) as (Hi1 & Ht1 & Hs1 & _).
+  destruct (c09l_run_proj _ _ _ _ _ _ Hm H2) as (Hi2 & Ht2 & Hs2 & _).
   assert (E : r_iters r1 = r_iters r2) by congruence.
   rewrite Hs1, Hs2, Ht1, Ht2, E. repeat split.
 Qed.
 
-(* with the fit identity at the states the loop can reach, the reported numbers agree too *)
+(* with the fit identity at the states the loop can reach (and, for maxiters = 0, arrange / fixsigns not changing what the
+   innerprod formula sees of the start), the reported numbers agree too *)
 Theorem cpals_print_indep_reach : forall tol p1 p2 s0 m dofix r1 r2,
   (forall k, fit_innerprod (finish dofix (isw (S k) s0)) = fit_mttkrp (isw (S k) s0)) ->
+  (m = 0 -> fit_innerprod (finish dofix s0) = fit_innerprod s0) ->
   run tol p1 s0 m dofix = Some r1 ->
   run tol p2 s0 m dofix = Some r2 ->
   r_state r1 = r_state r2 /\ r_iters r1 = r_iters r2 /\
   r_normres r1 = r_normres r2 /\ r_fit r1 = r_fit r2 /\ r_trace r1 = r_trace r2.
 Proof.
-  intros tol p1 p2 s0 m dofix r1 r2 Hfit H1 H2.
+  intros tol p1 p2 s0 m dofix r1 r2 Hfit Hzero H1 H2.
   destruct (cpals_print_indep_state _ _ _ _ _ _ _ _ H1 H2) as (Es & Ei & Et).
-  assert (Hrep : forall p r, run tol p s0 m dofix = Some r ->
+  destruct m as [|m'].
+  { assert (Hrep : forall p r, run tol p s0 0 dofix = Some r -> (r_normres r, r_fit r) = fit_innerprod s0).
+    { intros p r H. destruct (c09l_run_zero_proj _ _ _ _ _ H) as (_ & _ & Hs & H0 & Hp).
+      destruct p as [|p]; [apply H0; reflexivity|].
+      destruct Hp as (Hp & _); [lia|]. rewrite Hp, Hs. apply Hzero. reflexivity. }
+    pose proof (Hrep _ _ H1) as R1. pose proof (Hrep _ _ H2) as R2.
+    rewrite <- R2 in R1. injection R1 as En Ef. repeat split; assumption. }
+  assert (Hm : 0 < S m') by lia.
+  assert (Hrep : forall p r, run tol p s0 (S m') dofix = Some r ->
             (r_normres r, r_fit r) = fit_mttkrp (isw (S (r_iters r)) s0)).
   { intros p r H.
-    destruct (c09l_run_proj _ _ _ _ _ _ H) as (_ & _ & _ & Hs & H0 & Hp).
+    destruct (c09l_run_proj _ _ _ _ _ _ Hm H) as (_ & _ & Hs & H0 & Hp).
     destruct p as [|p].
     - apply H0. reflexivity.
     - destruct Hp as (Hp & _); [lia|]. rewrite Hp, Hs. apply Hfit. }
@@ -384,6 +449,7 @@ Qed.
 
 Theorem cpals_print_indep : forall tol p1 p2 s0 m dofix r1 r2,
   (forall s, fit_innerprod (finish dofix s) = fit_mttkrp s) ->
+  (m = 0 -> fit_innerprod (finish dofix s0) = fit_innerprod s0) ->
   run tol p1 s0 m dofix = Some r1 ->
   run tol p2 s0 m dofix = Some r2 ->
   r_state r1 = r_state r2 /\ r_iters r1 = r_iters r2 /\
@@ -396,28 +462,33 @@ Qed.
 Theorem cpals_log_silent : forall tol s0 m dofix r,
   run tol 0 s0 m dofix = Some r -> r_log r = [].
 Proof.
-  intros tol s0 m dofix r H.
-  destruct (c09l_run_proj _ _ _ _ _ _ H) as (_ & _ & _ & _ & H0 & _).
-  apply H0. reflexivity.
+  intros tol s0 m dofix r H. destruct m as [|m'].
+  - destruct (c09l_run_zero_proj _ _ _ _ _ H) as (_ & _ & _ & H0 & _). apply H0. reflexivity.
+  - assert (Hm : 0 < S m') by lia. destruct (c09l_run_proj _ _ _ _ _ _ Hm H) as (_ & _ & _ & H0 & _).
+    apply H0. reflexivity.
 Qed.
 
 Theorem cpals_log_printing : forall tol p s0 m dofix r, p > 0 ->
   run tol p s0 m dofix = Some r ->
-  r_log r = EvHeader :: iterlog s0 tol p (r_iters r) ++ [EvFinal (r_fit r)].
+  r_log r = EvHeader :: (if m =? 0 then [] else iterlog s0 tol p (r_iters r)) ++ [EvFinal (r_fit r)].
 Proof.
-  intros tol p s0 m dofix r Hp H.
-  destruct (c09l_run_proj _ _ _ _ _ _ H) as (_ & _ & _ & _ & _ & H1).
-  apply H1. exact Hp.
+  intros tol p s0 m dofix r Hp H. destruct m as [|m'].
+  - destruct (c09l_run_zero_proj _ _ _ _ _ H) as (_ & _ & _ & _ & H1). apply H1. exact Hp.
+  - assert (Hm : 0 < S m') by lia. destruct (c09l_run_proj _ _ _ _ _ _ Hm H) as (_ & _ & _ & _ & H1).
+    apply H1. exact Hp.
 Qed.
 
 Theorem cpals_report_consistent : forall tol p s0 m dofix r,
   run tol p s0 m dofix = Some r ->
-  (p = 0 -> (r_normres r, r_fit r) = fit_mttkrp (isw (S (r_iters r)) s0)) /\
+  (p = 0 -> 0 < m -> (r_normres r, r_fit r) = fit_mttkrp (isw (S (r_iters r)) s0)) /\
+  (p = 0 -> m = 0 -> (r_normres r, r_fit r) = fit_innerprod s0) /\
   (p > 0 -> (r_normres r, r_fit r) = fit_innerprod (r_state r)).
 Proof.
-  intros tol p s0 m dofix r H.
-  destruct (c09l_run_proj _ _ _ _ _ _ H) as (_ & _ & _ & _ & H0 & H1).
-  split; intros Hp; [apply H0|apply H1]; exact Hp.
+  intros tol p s0 m dofix r H. destruct m as [|m'].
+  - destruct (c09l_run_zero_proj _ _ _ _ _ H) as (_ & _ & _ & H0 & H1).
+    split; [intros _ Hm; lia|]. split; [intros Hp _; apply H0; exact Hp|intros Hp; apply H1; exact Hp].
+  - assert (Hm : 0 < S m') by lia. destruct (c09l_run_proj _ _ _ _ _ _ Hm H) as (_ & _ & _ & H0 & H1).
+    split; [intros Hp _; apply H0; exact Hp|]. split; [intros _ Hm0; lia|intros Hp; apply H1; exact Hp].
 Qed.
 
 End Proofs.
@@ -443,7 +514,7 @@ Example ex_print_indep_applies : forall p1 p2 r1 r2,
   ex_run_ok 5 p2 80 10%nat false = Some r2 ->
   r_state r1 = r_state r2 /\ r_iters r1 = r_iters r2 /\
   r_normres r1 = r_normres r2 /\ r_fit r1 = r_fit r2 /\ r_trace r1 = r_trace r2.
-Proof. intros p1 p2 r1 r2. apply cpals_print_indep. exact ex_fit_identity. Qed.
+Proof. intros p1 p2 r1 r2. apply cpals_print_indep; [exact ex_fit_identity|intros H; discriminate H]. Qed.
 
 Example ex_print_indep_values :
   ex_run_ok 5 0%nat 80 10%nat false = Some (mkResult 10006 3%nat 6 94 [] [60; 79; 90; 94]) /\
@@ -472,9 +543,10 @@ Proof. split; vm_compute; reflexivity. Qed.
 End C09LoopProofExamples.
 
 Print Assumptions cpals_run_closed.
-Print Assumptions cpals_crash_iff.
-Print Assumptions cpals_run_spec_eq.
-Print Assumptions cpals_run_spec_total.
+Print Assumptions cpals_run_zero.
+Print Assumptions cpals_run_total.
+Print Assumptions cpals_iters_bound_all.
+Print Assumptions cpals_state_all.
 Print Assumptions cpals_iters_bound.
 Print Assumptions cpals_trace_eq.
 Print Assumptions cpals_trace_sweeps.
